@@ -85,6 +85,7 @@ def asp(c, n):
 class organize(ContractBase):
     params = {'task_names': Bag(ATOM), 'runid': Opt(INT), 'targets': TGTS, 'event': Opt(ATOM)}
     defaults = {'runid': None, 'targets': None, 'event': None}
+    none_as_empty = ['targets']      # first statement: targets = targets if targets else set()
     modifies = ['Node.todo', 'Node.runid', 'Node.status', 'Node.event', QUE]
     assumes = [choice_root, unique_tags]
     locals = {'jobs': MapOf(ATOM, NODE), 'targets': TGTS}
